@@ -17,10 +17,12 @@ import (
 	"net"
 	"net/http"
 	"os"
+	"os/signal"
 	"strconv"
 	"strings"
 	"sync"
 	"sync/atomic"
+	"syscall"
 	"testing"
 	"time"
 
@@ -121,6 +123,9 @@ func verifRun(op *verifOp) (res *verifOut) {
 	case "encode":
 		res.Err = verifErr(encode(op.Files, op.To, op.Output))
 	case "report":
+		if op.SignalMs > 0 {
+			defer verifInterruptSelf(time.Duration(op.SignalMs) * time.Millisecond)()
+		}
 		res.Err = verifErr(report(op.Files, op.Type, op.Output, time.Duration(op.Every), op.Buckets))
 	case "plot":
 		res.Err = verifErr(plotRun(op.Files, op.Threshold, op.Title, op.Output))
@@ -137,6 +142,25 @@ func verifRun(op *verifOp) (res *verifOut) {
 	}
 	return res
 }
+
+// verifInterruptSelf sends this process an interrupt after d, as a user's
+// Ctrl-C would. The returned function waits until the signal has been sent, so
+// that it cannot reach a later operation. A permanent subscription keeps a
+// signal that arrives after the command has returned from ending the driver.
+func verifInterruptSelf(d time.Duration) (wait func()) {
+	signal.Notify(verifSigSink, os.Interrupt)
+	sent := make(chan struct{})
+	time.AfterFunc(d, func() {
+		_ = syscall.Kill(os.Getpid(), syscall.SIGINT)
+		close(sent)
+	})
+	return func() {
+		<-sent
+		time.Sleep(5 * time.Millisecond)
+	}
+}
+
+var verifSigSink = make(chan os.Signal, 16)
 
 func verifErr(err error) string {
 	if err == nil {
